@@ -7,6 +7,7 @@ open Vx
 open C05Model
 open C05FragModel
 open C02AggModel
+open C02AggSencModel
 
 let hexn s = n_of_hex s
 let hn n = hex_of_n n
@@ -247,6 +248,57 @@ let lz_seg (s : aseg) = L.exists lz_frag s.sg_frags
 let lz_file (f : afile) =
   L.exists lz_seg f.fl_segs || L.exists (fun c -> match c with FcMdat m -> lz_md m | _ -> false) f.fl_children
 
+(* ---- senc boxes *)
+let p_subs t n = times n (fun () -> let c = nn t in let p = nn t in (c, p))
+
+(* H n (iv nsub (clear prot)* )* : a history of AddSample from CreateSencBox; returns the box and the outcomes *)
+let p_senc t : senc * string =
+  match next t with
+  | "H" ->
+    let k = nint t in
+    let s = ref senc_create in
+    let oc = Buffer.create 8 in
+    for _ = 1 to k do
+      let iv = bytes_of_hex (next t) in
+      let ns = nint t in
+      let subs = p_subs t ns in
+      (match senc_add !s iv subs with
+       | Base.Ok s' -> s := s'; Buffer.add_char oc 'o'
+       | Base.Err -> Buffer.add_char oc 'e'
+       | _ -> Buffer.add_char oc 'p')
+    done;
+    (!s, if k = 0 then "-" else Buffer.contents oc)
+  | "D" ->
+    let v = nn t in let f = nn t in let c = nn t in let ivs = nn t in
+    let ni = nint t in
+    let ivl = times ni (fun () -> bytes_of_hex (next t)) in
+    let nl = nint t in
+    let subs = times nl (fun () -> let n = nint t in p_subs t n) in
+    let raw = if nbool t then Some (bytes_of_hex (next t)) else None in
+    let rd = nn t in
+    ({ sn_version = v; sn_flags = f; sn_count = c; sn_ivsize = ivs; sn_ivs = ivl; sn_subs = subs; sn_raw = raw; sn_read = rd }, "-")
+  | x -> failwith ("bad senc form " ^ x)
+
+let senc_history (s0 : senc) (ops : string) : string =
+  let st = ref s0 in
+  let obs = ref [] in
+  let bytes_obs l = let s = string_of_bytes l in Printf.sprintf "B%x:%s" (S.length s) (Digest.to_hex (Digest.string s)) in
+  (try
+     S.iter (fun c ->
+         let o =
+           match c with
+           | 's' -> (match senc_size !st with Base.Ok n -> "S" ^ hn n | _ -> "P")
+           | 'i' -> (match senc_info !st with Base.Ok s' -> st := s'; "I" | _ -> "P")
+           | 'e' | 'w' ->
+             let (s', r) = if c = 'e' then senc_encode_w !st else senc_encode_sw !st in
+             st := s';
+             (match r with Base.Ok b -> bytes_obs b | Base.Err -> "E" | _ -> "P")
+           | _ -> failwith "bad op" in
+         if o = "P" then (obs := "P" :: !obs; raise Exit)
+         else obs := (o ^ "/" ^ hn (!st).sn_flags) :: !obs) ops
+   with Exit -> ());
+  S.concat " " (L.rev !obs)
+
 let () =
   iter_lines (fun line ->
       match split_on '\t' line with
@@ -268,4 +320,10 @@ let () =
           Printf.printf "MISMATCH %s opaque box not stateless / Size() vs bytes written: %s\n" id (S.concat " " (L.rev !bad_oboxes))
         else if m = obs then Printf.printf "OK %s %s\n" id kind
         else Printf.printf "MISMATCH %s model=%s\n" id m
+      | ["A"; id; "senc"; toks; ops; addobs; obs] ->
+        let t = { toks = Array.of_list (L.filter (fun x -> x <> "") (split_on ' ' toks)); pos = 0 } in
+        let (s, oc) = p_senc t in
+        let m = senc_history s ops in
+        if oc = addobs && m = obs then Printf.printf "OK %s senc\n" id
+        else Printf.printf "MISMATCH %s model=%s %s\n" id oc m
       | _ -> Printf.printf "MISMATCH ? bad line\n")
